@@ -3358,10 +3358,16 @@ func (t *transport) RoundTrip(hc *HostClient, req *Request, resp *Response) (ret
 				return nil
 			}
 			hc.ReleaseReader(br)
+			// A body stream closed before its end leaves bytes of this response
+			// on the connection (and in the reader released above): such a
+			// connection must not go back to the pool, or those bytes are read
+			// as the response to the next request.
+			unread := false
 			if r, ok := rbs.(*requestStream); ok {
+				unread = r.header != nil && r.unreadOnWire()
 				releaseRequestStream(r)
 			}
-			if closeConn || resp.ConnectionClose() || wErr != nil {
+			if closeConn || resp.ConnectionClose() || wErr != nil || unread {
 				hc.CloseConn(cc)
 			} else {
 				hc.ReleaseConn(cc)
